@@ -213,48 +213,9 @@ def run(repo, res, tier):
         for sc in (repo.subclasses(c) if c is not None else []):
             _o, p = repo.find_prop(sc, "shapely_object")
             res.check("G4-PROTOCOL", "%s (admitted query shape) exports shapely_object" % sc.name, p is not None and "get" in p, lmod, fs, "find_lanelet_by_shape admits %s" % sc.name, "%s is accepted as query shape but has no shapely_object: the lookup raises AttributeError" % sc.name, qualname="LaneletNetwork.find_lanelet_by_shape")
-    go = lan.methods["get_obstacles"]
-    rdg = ReachingDefs(go)
-    hpg = helper_table(lan, lmod, go, repo)
-    from ..dataflow import Provenance as _Prov
+    # get_obstacles, contains_points and map_obstacles_to_lanelets: decided by abstract evaluation (c06ev)
+    from . import c06ev as _c06ev
 
-    provg = _Prov(go, rdg)
-    op, tpar = go.args.args[1].arg, go.args.args[2].arg
-    cols, _rn = collected(lmod, go, rdg, [op, tpar], hpg)
-    ok = len(cols) == 1 and len(cols[0].iters) >= 1 and cols[0].iters[0][1] == op and norm(cols[0].elem) == cols[0].iters[0][0]
-    res.check("G4-PROTOCOL", "Lanelet.get_obstacles returns candidates of the given obstacle list", ok, lmod, go, "Lanelet.get_obstacles collects %s over %s" % ([norm(c.elem) for c in cols], [c.iters and c.iters[0][1] for c in cols]), "the answer is not a selection of the given obstacles", qualname="Lanelet.get_obstacles")
-    inter = [n for n in ast.walk(go) if isinstance(n, ast.Call) and isinstance(n.func, ast.Attribute) and n.func.attr == "intersects"]
-    ok = len(inter) == 1
-    if ok and cols:
-        ic = inter[0]
-        sides = [ic.func.value] + list(ic.args)
-        own = [x for x in sides if canon(x, rdg, rdg.stmt_of(ic), [op, tpar], hpg) in ("self.polygon.shapely_object",)]
-        other = [x for x in sides if x not in own]
-        lv = cols[0].iters[0][0]
-        occ_ok = False
-        for x in other:
-            for e in backward_slice(go, rdg, x, hpg, provg):
-                for c in ast.walk(e):
-                    if isinstance(c, ast.Call) and isinstance(c.func, ast.Attribute) and c.func.attr == "occupancy_at_time" and norm(c.func.value) == lv and [norm(a) for a in c.args] == [tpar]:
-                        occ_ok = True
-        # the selection is conditional on that test
-        ict = canon(ic, rdg, rdg.stmt_of(ic), [op, tpar], hpg)
-        cond = any(ict in t for t, p, _n in cols[0].guards if p)
-        ok = len(own) == 1 and occ_ok and cond
-    res.check("G4-PROTOCOL", "Lanelet.get_obstacles intersects the lanelet polygon with the occupancy shape(s) at the time step", ok, lmod, go, "Lanelet.get_obstacles", "obstacles are not mapped by intersecting their occupancy with the lanelet polygon", qualname="Lanelet.get_obstacles")
-    cpz = lan.methods["contains_points"]
-    pl = cpz.args.args[1].arg
-    cols, _rn = collected(lmod, cpz, ReachingDefs(cpz), [pl], helper_table(lan, lmod, cpz, repo))
-    ok = len(cols) == 1 and len(cols[0].iters) == 1 and cols[0].iters[0][1] == pl and not cols[0].guards and canon(cols[0].elem, None, None, [pl]) == "self.polygon.contains_point(%s)" % cols[0].iters[0][0]
-    res.check("G4-PROTOCOL", "Lanelet.contains_points asks the lanelet polygon for every point", ok, lmod, cpz, "Lanelet.contains_points", "point containment is not decided by the lanelet polygon, or not per point", qualname="Lanelet.contains_points")
-    mo = net.methods["map_obstacles_to_lanelets"]
-    rdm = ReachingDefs(mo)
-    obp = mo.args.args[1].arg
-    loops = [n for n in walk_no_nested(mo) if isinstance(n, ast.For) and canon(n.iter, rdm, n, [obp]) in ("self.lanelets", "self.lanelets.values()")]
-    ok = len(loops) == 1
-    if ok:
-        lv = norm(loops[0].target)
-        stores = [st for st in ast.walk(loops[0]) if isinstance(st, ast.Assign) and isinstance(st.targets[0], ast.Subscript)]
-        ok = len(stores) == 1 and canon(stores[0].targets[0].slice, rdm, stores[0], [obp]) == "%s.lanelet_id" % lv and canon(stores[0].value, rdm, stores[0], [obp]) == "%s.get_obstacles(%s)" % (lv, obp)
-    res.check("G4-PROTOCOL", "map_obstacles_to_lanelets asks every lanelet and keys by its id", ok, lmod, mo, "map_obstacles_to_lanelets", "the obstacle map is not built from every lanelet's own answer", qualname="LaneletNetwork.map_obstacles_to_lanelets")
+    _c06ev.get_obstacles_rule(repo, res)
+    _c06ev.points_and_mapping_rules(repo, res)
     return {}
